@@ -35,7 +35,7 @@ fn extra_schema(rng: &mut Rng) -> Value {
 }
 
 /// schema documents without objects and references, for the tie of the IR model M7 (`Schema::intersect`)
-fn gen_ir_schema(rng: &mut Rng, depth: usize) -> Value { let k = rng.below(if depth > 1 { 7 } else { 12 }); gen_ir_kind(rng, depth, k) }
+fn gen_ir_schema(rng: &mut Rng, depth: usize) -> Value { let k = if rng.chance(1, 5) { 12 } else { rng.below(if depth > 1 { 7 } else { 12 }) }; gen_ir_kind(rng, depth, k) }
 
 fn gen_ir_kind(rng: &mut Rng, depth: usize, kind: usize) -> Value {
     let dec = |rng: &mut Rng| -> Value { let s = [0usize, 0, 1, 2][rng.below(4)]; let v = rng.range(-40, 40); serde_json::from_str(&if s == 0 { format!("{v}") } else { format!("{}", v as f64 / 10f64.powi(s as i32)) }).unwrap() };
@@ -49,10 +49,24 @@ fn gen_ir_kind(rng: &mut Rng, depth: usize, kind: usize) -> Value {
             Value::Object(m)
         }
         2 => { let mut v = json!({"type":"string"}); if rng.chance(1, 2) { v["minLength"] = json!(rng.below(4)); } if rng.chance(1, 2) { v["maxLength"] = json!(1 + rng.below(6)); } v }
-        3 => [json!({"const":"ab"}), json!({"const":"cd"}), json!({"enum":["ab","x",""]}), json!({"const":5}), json!({"const":2.5}), json!({"enum":[1,2,"ab",null,true]}), json!({"const":[1,"a"]}), json!({"const":null})][rng.below(8)].clone(),
+        3 => [json!({"const":{"a":1,"b":"x"}}), json!({"enum":[{"a":1},{"a":2,"c":null}]}), json!({"const":"ab"}), json!({"const":"cd"}), json!({"enum":["ab","x",""]}), json!({"const":5}), json!({"const":2.5}), json!({"enum":[1,2,"ab",null,true]}), json!({"const":[1,"a"]}), json!({"const":null})][rng.below(10)].clone(),
         4 => [json!({"type":"boolean"}), json!({"const":true}), json!({"const":false}), json!({"type":"null"}), json!({"enum":[true,null]})][rng.below(5)].clone(),
         5 => [json!({}), json!(true), json!(false), json!({"type":["integer","string"]}), json!({"type":["number","null","boolean"]}), json!({"type":["array","string"]})][rng.below(6)].clone(),
         6 => { let mut v = json!({"type":"array"}); if rng.chance(2, 3) { v["items"] = gen_ir_schema(rng, depth + 1); } if rng.chance(1, 2) { v["prefixItems"] = Value::Array((0..1 + rng.below(2)).map(|_| gen_ir_schema(rng, depth + 2)).collect()); } if rng.chance(1, 2) { v["minItems"] = json!(rng.below(3)); } if rng.chance(1, 2) { v["maxItems"] = json!(1 + rng.below(4)); } v }
+        12 => {
+            // objects: named properties from a small pool (so that the two operands share some), additionalProperties
+            // absent / false / a schema, required names (also ones that are not listed), property counts
+            let pool = ["a", "b", "c", "dd"];
+            let mut props = serde_json::Map::new();
+            for k in pool { if rng.chance(1, 2) { props.insert(k.to_string(), gen_ir_schema(rng, depth + 2)); } }
+            let mut v = json!({"type":"object","properties":props});
+            match rng.below(4) { 0 => { v["additionalProperties"] = json!(false); } 1 => { v["additionalProperties"] = gen_ir_schema(rng, depth + 2); } _ => {} }
+            let req: Vec<&str> = pool.iter().copied().chain(["zz"]).filter(|_| rng.chance(1, 4)).collect();
+            if !req.is_empty() { v["required"] = json!(req); }
+            if rng.chance(1, 4) { v["minProperties"] = json!(rng.below(3)); }
+            if rng.chance(1, 3) { v["maxProperties"] = json!(rng.below(4)); }
+            v
+        }
         7 | 8 => json!({"anyOf": (0..2 + rng.below(2)).map(|_| gen_ir_schema(rng, depth + 1)).collect::<Vec<_>>()}),
         9 => json!({"oneOf": (0..2 + rng.below(2)).map(|_| gen_ir_schema(rng, depth + 1)).collect::<Vec<_>>()}),
         10 => json!({"allOf": (0..2).map(|_| gen_ir_schema(rng, depth + 1)).collect::<Vec<_>>()}),
@@ -66,9 +80,9 @@ fn run_isect(case: &Value, tag: usize, rep: &mut Report, mb: &mut ModelBatch) {
     let mut rng = Rng::new(case["seed"].as_u64().unwrap_or(1));
     for _ in 0..case["pairs"].as_u64().unwrap_or(20) {
         // the second operand is of the first one's kind two times out of three (otherwise most intersections are empty)
-        let ka = rng.below(12);
+        let ka = if rng.chance(1, 3) { 12 } else { rng.below(12) };
         let a = gen_ir_kind(&mut rng, 0, ka);
-        let kb = if ka >= 7 { rng.below(12) } else { ka };
+        let kb = if ka == 12 { 12 } else if ka >= 7 { rng.below(12) } else { ka };
         let b = if rng.chance(2, 3) { gen_ir_kind(&mut rng, 0, kb) } else { gen_ir_schema(&mut rng, 0) };
         rep.evaluations += 1;
         match llguidance::verif::verif_intersect(&a, &b) {
